@@ -20,14 +20,14 @@ T = {
     "C04-tree_w1_offset": ("`BrownianTree` passes `W = w1` instead of `w1 - w0` to its interval", "w1 supplied together with a non-zero w0", "caught", ""),
     "C04-point_eval_origin": ("point evaluation `bm(t)` becomes the query [max(0, t0), t]", "negative time origin and the point-evaluation form", "caught", ""),
     "C05-refine_resplit_left": ("dependency-tree rebuild re-splits a left child that already has children", "no dt hint, one long query first, then >= 100 short steps, then an earlier step asked again", "caught", ""),
-    "C05-dt_hint_step_fastpath": ("sequential-stepping fast path (only with a dt hint) carves the step off the right sibling without checking that it is still a leaf", "dt hint, a second forward pass over an already stepped region with another step size, then the first pass's intervals asked again", "", ""),
-    "C05-last_levy_area_memo": ("one-slot memo of the last Levy area, stored for the last *piece* although it is the aggregate of a multi-piece query", "Davie/Foster, m > 1, a multi-piece query immediately followed by a query containing its last piece", "", ""),
+    "C05-dt_hint_step_fastpath": ("sequential-stepping fast path (only with a dt hint) carves the step off the right sibling without checking that it is still a leaf", "dt hint, a second forward pass over an already stepped region with another step size, then the first pass's intervals asked again", "caught", ""),
+    "C05-last_levy_area_memo": ("one-slot memo of the last Levy area, stored for the last *piece* although it is the aggregate of a multi-piece query", "Davie/Foster, m > 1, a multi-piece query immediately followed by a query containing its last piece", "caught", ""),
     "C06-randn_memo_inplace_H": ("`_randn` memoised with lru_cache + top-level H scaled in place: a second object with the same entropy scales the cached tensor again", "H modes, two same-entropy objects built back to back in one process", "caught", ""),
     "C06-lazy_spacetime_levy": ("H only tracked after the first return_U / return_A call; before that a W-only bridge is used", "H modes, histories mixing plain W queries with return_U / return_A queries", "caught", ""),
     "C06-tree_point_chain": ("`BrownianTree` point evaluation continued from the last evaluated point", "BrownianTree, two histories containing the same point, one of which evaluated a smaller point right before; bitwise comparison", "caught", ""),
     "C07-count_empty_queries": ("empty queries feed the running-average step estimator and can trigger the tree rebuild with target piece length 0", "default object (no dt hint, tol 0), more than 100 empty queries before the first real one", "missed", "empty query repeated 100/101/130 times (explicit `rep`), half of them moved to the head of the history; directed case in C07"),
-    "C07-loc_walk_up": ("`_loc` hands over to the parent with a plain recursive call instead of the trampolined climb", "a long chain of nested intervals followed by a non-adjacent query", "", ""),
-    "C07-lbyl_cache_lookup": ("cache looked up with `.get()` which the cache_size=0 mapping does not implement", "cache_size=0, any non-empty query", "", ""),
+    "C07-loc_walk_up": ("`_loc` hands over to the parent with a plain recursive call instead of the trampolined climb", "a long chain of nested intervals followed by a non-adjacent query", "caught (late: run 648 of 700)", ""),
+    "C07-lbyl_cache_lookup": ("cache looked up with `.get()` which the cache_size=0 mapping does not implement", "cache_size=0, any non-empty query", "caught - but at first for the wrong reason: the fault-injecting cache wrapper itself had no .get, so every cache size raised (a harness artefact that would have been a false alarm on a benign .get refactor)", "FaultyCache forwards every mapping method the real object has (and only those); the violation is now the genuine one, at cache_size=0 only; benign mutant b19"),
     "C12-interp_nominal_step": ("interpolation over [prev_t, prev_t + dt] (nominal step) instead of [prev_t, curr_t]", "horizon off the grid and an output strictly inside the clipped last step", "caught", ""),
     "C12-absorb_short_tail": ("a remainder shorter than 1e-3 dt is absorbed into the previous step", "ts[-1] just past a grid point", "caught", ""),
     "C12-terminal_shortcut": ("once the solver has reached ts[-1] every remaining output is the final state", "an intermediate output inside the last step", "caught", ""),
